@@ -151,6 +151,7 @@ Definition analyze (cleanup : bool) (F : path) (v : facts) (s : index) : index :
   if negb (f_ok v) then s else
   let s := cleanup_usages F s in
   let s := if cleanup then cleanup_defs F s else s in
+  let s := set_version s (version s + 1) in
   let s := set_modnames s (ainsert F (f_modnames v) (modnames s)) in
   fold_left (visit_item F) (f_items v) s.
 
